@@ -569,8 +569,26 @@ func secretTypingRule(o *Ob) {
 		}
 	}
 	o.Check(n >= 20, "few-pairs", "implausibly few X/XFile pairs: "+itoa(n), nil)
+	// the masking marshalers must be in the method set of the value type: the encoders never take the address of a
+	// field to look for a marshaler, so a pointer-receiver method leaves every value-typed field unmasked
+	for _, p := range e.Pkgs {
+		if p.PkgPath != Mod+"/config/common" || p.Types == nil {
+			continue
+		}
+		for _, tname := range []string{"SecretURL", "SecretTemplateURL"} {
+			tn, ok := p.Types.Scope().Lookup(tname).(*types.TypeName)
+			if !o.Check(ok, "masking-type|"+tname, "masking type "+tname+" not found in config/common", nil) {
+				continue
+			}
+			ms := types.NewMethodSet(tn.Type())
+			for _, m := range []string{"MarshalYAML", "MarshalJSON"} {
+				o.SiteS(tname + "." + m + " (value method set)")
+				o.Check(ms.Lookup(p.Types, m) != nil, "masking-receiver|"+tname+"."+m, tname+"."+m+" is not in the method set of the value type (pointer receiver): fields of type "+tname+" are printed as plain strings by the status API", nil)
+			}
+		}
+	}
 	// masking
-	for _, name := range []string{"(am/config/common.SecretURL).MarshalYAML", "(am/config/common.SecretURL).MarshalJSON"} {
+	for _, name := range []string{"(am/config/common.SecretURL).MarshalYAML", "(am/config/common.SecretURL).MarshalJSON", "(am/config/common.SecretTemplateURL).MarshalYAML", "(am/config/common.SecretTemplateURL).MarshalJSON"} {
 		fn := o.FnOpt(name)
 		if fn == nil {
 			continue
